@@ -79,7 +79,7 @@ def header_reader_table(ctx):
 def header_writer_elements(ctx):
     """list of (element node, tokens) of the list _write_metadata returns"""
     M = ctx.M
-    fn = M.fn(SET_META + "._write_metadata")
+    fn = M.nfn(SET_META + "._write_metadata", subst="alias")
     rets = returns_of(fn.node)
     if len(rets) != 1 or not isinstance(rets[0].value, ast.List):
         raise AnalysisError("SM header writer: expected a single returned list literal")
